@@ -334,6 +334,63 @@ pub fn burst(output: &str, n: usize, cancelable: bool, cross: bool) -> std::io::
 }
 
 
+/// C09 on the built-in capacities: one thread starts and finishes `n` traces with no collector cycle in between
+/// (ring of 10240 slots: from about the 3400th trace on the queue is full, start and finish signals are parked
+/// by the thousand, span sets are refused).  Every call must return (watchdog), and once the queue has drained a
+/// new trace - its root, a child, a child made by a thread that only ever submits - is delivered completely.
+pub fn burst_roots(output: &str, n: usize) -> std::io::Result<i32> {
+    use fastrace::prelude::*;
+    fastrace::set_reporter(rt::CapturingReporter, fastrace::collector::Config::default().report_interval(Duration::from_secs(3600)));
+    shared().free.store(true, Ordering::SeqCst);
+    std::thread::sleep(Duration::from_millis(300));
+    let (tx, rx) = std::sync::mpsc::channel::<usize>();
+    let (go_tx, go_rx) = std::sync::mpsc::channel::<Span>();
+    let (done_tx, done_rx) = std::sync::mpsc::channel::<()>();
+    // the worker: overflows its own queue with children of the burst's first root, later only submits
+    let worker = std::thread::spawn(move || {
+        let mut made = 0usize;
+        for i in 0..n {
+            let r = Span::root("burstr-root", SpanContext::new(fastrace::collector::TraceId(0xb0000 + i as u128), fastrace::collector::SpanId(1)));
+            let _c = Span::enter_with_parent("burstr-child", &r);
+            made += 1;
+        }
+        let _ = tx.send(made);
+        // after the drain: only a span set is submitted from this thread
+        if let Ok(parent) = go_rx.recv() {
+            {
+                let _c = Span::enter_with_parent("late-worker-child", &parent);
+            }
+            drop(parent);
+            let _ = done_tx.send(());
+        }
+    });
+    let returned = rx.recv_timeout(Duration::from_secs(25)).is_ok();
+    let mut late = 0usize;
+    let mut late_ok = false;
+    if returned {
+        let fl = flush_twice();
+        let before = shared().nrecs.load(Ordering::SeqCst);
+        let root = Span::root("late-root", SpanContext::new(fastrace::collector::TraceId(0xbffff), fastrace::collector::SpanId(1)));
+        let handed = Span::enter_with_parent("late-handed", &root);
+        let _ = go_tx.send(handed);
+        let worker_done = done_rx.recv_timeout(Duration::from_secs(10)).is_ok();
+        {
+            let _c = Span::enter_with_parent("late-child", &root);
+        }
+        drop(root);
+        let fl2 = flush_twice();
+        late = shared().nrecs.load(Ordering::SeqCst) - before;
+        late_ok = fl && fl2 && worker_done;
+        let _ = worker.join();
+    }
+    let mut out = std::io::BufWriter::new(std::fs::File::create(output)?);
+    writeln!(out, "{}", json!({"ev":"reset","run":0,"cfg":{"cancelable":false,"enabled":true,"ready":true,"queue":10240,"stack":4096,"ring":10240,"foreign":[],"free":true}}))?;
+    writeln!(out, "{}", json!({"ev":"burstr","roots":n,"returned":returned,"calls_after_ok":late_ok,"late_delivered":late,"late_expected":4}))?;
+    writeln!(out, "{}", json!({"ev":"end","run":0,"misses":0,"hung":!returned}))?;
+    out.flush()?;
+    Ok(0)
+}
+
 /// flush() twice, on a helper thread: a collector that is stuck (C07) must not take the harness with it.
 fn flush_twice() -> bool {
     let (tx, rx) = std::sync::mpsc::channel();
